@@ -1,10 +1,12 @@
 """C17 — problems are isolated; API behaviour does not depend on unrelated history.
 
 prove       : lean/MontePyVerif/Props/C17.lean over Model/World.lean instantiated with Gen/Setters.lean
-              (the shared-state facts the translator reads off the AST of the source on every run)
+              (the shared-state facts the translator reads off the AST of the source on every run: module / class /
+              closure state of MontePy and every call that sets state of the INTERPRETER — sys.set*, os.chdir ...)
 correspond  : U-world   — modelled histories (reads with read cards and failures at every stage, edits, deep copies,
-                          writes, generated-setter calls): results, written content, the read-card queue, the shared
-                          parser log and the setters' closure cells, real code vs Model/World.lean (drv_c17)
+                          writes, generated-setter calls; cells with deep geometry trees): results, written content,
+                          the read-card queue, the shared parser log, the setters' closure cells and the recursion
+                          limit, real code vs Model/World.lean (drv_c17)
 judge       : the property itself on the REAL code, always from the state of an interpreter that has only imported
               MontePy (a fork of the pristine check process, or a fresh subprocess):
               (a) interleavings on several problems: what a problem's operations return and write must equal what
@@ -26,7 +28,7 @@ from vlib.par import pmap, shrink_list
 
 META = {
     "property_id": "C17",
-    "technique": "Lean 4 proof: non-interference of a world model (read-card queue, shared parser log, closure cells of generated setters, problems) by induction over operation histories, instantiated with shared-state facts extracted from the source AST; differential correspondence model vs implementation; history-differential oracle on the real code in pristine interpreters",
+    "technique": "Lean 4 proof: non-interference of a world model (read-card queue, shared parser log, closure cells of generated setters, the interpreter's recursion limit, problems) by induction over operation histories, instantiated with shared-state facts extracted from the source AST (module/class/closure state and every call that sets interpreter-wide state); differential correspondence model vs implementation; history-differential oracle on the real code in pristine interpreters",
     "design_ref": "6 C17",
 }
 
@@ -41,6 +43,9 @@ THEOREMS = [
     "C17_latch",
     "C17_latch_decls",
     "C17_latch_reintroduced_refutes",
+    "C17_interp",
+    "C17_interp_reachable",
+    "C17_limit_raised_refutes",
     "C17_isolate_frame",
     "C17_isolate_result",
     "C17_copy",
@@ -99,7 +104,7 @@ def run_isolated(run):
 # --------------------------------------------------------------------------- op metadata (shared by both oracles)
 def op_target(op):
     n = op[0]
-    if n in ("read", "readtext", "readfix", "readrich", "setImp", "setVol", "setNum", "remove", "edit", "write", "report"):
+    if n in ("read", "readtext", "readfix", "readrich", "readbig", "setImp", "setVol", "setNum", "remove", "edit", "write", "report"):
         return op[1]
     if n == "deepcopy":
         return op[2]
@@ -166,9 +171,13 @@ SETPROP_POOL = [
 ]
 
 
+SMALL_DEPTHS = [1, 1, 2, 3, 5, 12, 40]  # levels of a cell's geometry tree that every walk (also the slow writer) handles
+
+
 def gen_files(rng, clean=False):
     """a small acyclic tree of files; file 0 is the problem; unless `clean`, a read card may name a file that does
-    not exist, numbers may collide, a cell may be malformed in three ways or name a missing surface"""
+    not exist, numbers may collide, a cell may be malformed in three ways or name a missing surface; a third of the
+    cells have a geometry of several surfaces (a tree of up to 40 levels)"""
     nfiles = rng.choice([1, 1, 2, 3, 4])
     used = set()
     files = []
@@ -182,6 +191,8 @@ def gen_files(rng, clean=False):
                 num = free.pop() if (clean or rng.random() < 0.93) else rng.choice(sorted(used) or [1])
                 used.add(num)
                 items.append(["card", num, rng.randint(0, 3), rng.randint(1, 3), (not clean) and rng.random() < 0.03])
+                if rng.random() < 0.33:
+                    items[-1].append(rng.choice(SMALL_DEPTHS))
             elif r < 0.88:
                 # reads point forward (acyclic) or, rarely, at a missing file
                 if fid + 1 < nfiles and (clean or rng.random() < 0.92):
@@ -198,7 +209,7 @@ def with_slot(rng, op):
     """give a read a path that other reads of the history reuse (slots 0 and 1), or leave it a path of its own"""
     if rng.random() < 0.5:
         slot = rng.choice([0, 0, 1])
-        if op[0] == "readrich":
+        if op[0] in ("readrich", "readbig"):
             op[2] = dict(op[2], slot=slot)
         elif op[0] in ("read", "readtext"):
             op = op[:4] + [slot]
@@ -245,6 +256,23 @@ def targeted_histories(extended=False):
                 for r in reuse:
                     yield {"kind": "world", "ops": [rd(1, d1, 0), rd(2, d2, 0), rd(0, r, 0), ["write", 0, "cells"]]}
                     yield {"kind": "world", "ops": [rd(1, d1, 0), rd(2, d2, 1), rd(0, r, 1), ["write", 0, "cells"], rd(3, r, 0), ["write", 3, "cells"]]}
+
+
+def big_histories():
+    """cells with VERY deep geometry trees (one level per surface): the recursive walks over them (copy.deepcopy here)
+    succeed or raise RecursionError depending on the interpreter's recursion limit — a process-wide setting.  An
+    unrelated problem 1 with a cell of `a` tree levels is read before / after / between the events of problem 0 (cell
+    of `b` levels), which is deep-copied; the copies are edited and copied again.  Depths stay clear of the thresholds
+    (a copy needs about 6 frames per level: 160 levels at the default limit) so that the model's constants need not be
+    exact; nothing that deep is written (the writer is quadratic in the depth)."""
+    def rd(pid, depth, extra=()):
+        return ["read", pid, [[0, [_card(1) + [depth]] + [list(x) for x in extra]]], 0]
+
+    small = [_card(7, 2, 2)]
+    for a, b in ((899, 249), (599, 199), (899, 120), (3, 249), (120, 120)):
+        yield {"kind": "world", "ops": [rd(1, a), rd(0, b, small), ["deepcopy", 0, 2], ["setImp", 2, 1, 5], ["deepcopy", 2, 3], ["setVol", 3, 0, 4]]}
+        yield {"kind": "world", "ops": [rd(0, b, small), ["deepcopy", 0, 2], rd(1, a), ["deepcopy", 0, 3], ["setImp", 3, 0, 6], ["deepcopy", 1, 2]]}
+        yield {"kind": "world", "ops": [rd(0, b), rd(1, a, small), ["remove", 1, 0], ["deepcopy", 0, 2], ["deepcopy", 1, 3], ["write", 3, "cells"]]}
 
 
 def gen_world_case(rng):
@@ -363,8 +391,9 @@ def to_model_case(case, obs):
         elif op[0] == "read":
             # the rendered problem file ends with a surface block and a data block of one input each (render_files)
             files = [[fid, items + ([["other"], ["other"]] if fid == op[3] else [])] for fid, items in op[2]]
-            # the path the problem is read from: its slot (reused by other reads of the slot), else one of its own
-            mops.append(["read", op[1], files, op[3], op[4] if len(op) > 4 else 1000 + i])
+            # the path the problem is read from: its slot (reused by other reads of the slot), else one of its own;
+            # last: the recursion limit the interpreter had after the read (used only by the shape of the code that sets it)
+            mops.append(["read", op[1], files, op[3], op[4] if len(op) > 4 else 1000 + i, o["state"]["limit"]])
         else:
             mops.append(op)
     return {"fuel": FUEL, "ops": mops}, table
@@ -374,12 +403,17 @@ def parse_cells(text):
     """the cell block of a written modelled problem as [[num, imp, vol]] (an independent, dumb reader)"""
     import re
 
-    lines = text.split("\n")
-    out = []
-    for line in lines[1:]:
+    lines = []
+    for line in text.split("\n")[1:]:
         if not line.strip():
             break
-        m = re.match(r"^\s*(\d+)\s+0\s+\S+\s+imp:n=(\S+)\s+vol=(\S+)\s*$", line, flags=re.I)
+        if line.startswith("     ") and lines:  # a continuation line
+            lines[-1] += " " + line.strip()
+        else:
+            lines.append(line)
+    out = []
+    for line in lines:
+        m = re.match(r"^\s*(\d+)\s+0\s+(?:-\d+\s+)+imp:n=(\S+)\s+vol=(\S+)\s*$", line, flags=re.I)
         if not m:
             return {"unparsed": line}
         out.append([int(m.group(1)), int(float(m.group(2))), int(float(m.group(3)))])
@@ -414,7 +448,7 @@ def canon_impl_world(case, obs, table):
                 cell = table.id(now[0]) if isinstance(now, list) and len(now) == 1 else "?"
             elif info.get("cell_changed"):
                 cell = "?"
-        out.append({"res": res, "queue": o["state"]["queue"], "log": o["state"]["log"], "cell": cell})
+        out.append({"res": res, "queue": o["state"]["queue"], "log": o["state"]["log"], "limit": o["state"]["limit"], "cell": cell})
     return out
 
 
@@ -495,7 +529,76 @@ EDITS = [
 ]
 
 
-READ_OPS = ("read", "readtext", "readfix", "readrich")
+READ_OPS = ("read", "readtext", "readfix", "readrich", "readbig")
+# surfaces of the big cell of a `readbig` problem (a geometry tree of n - 1 levels): ordinary, then around the depths at
+# which the recursive walks (deepcopy, str, format, parse) stop fitting into the default recursion limit, then far beyond
+BIG_SIZES = [3, 30, 120, 170, 200, 200, 250, 250, 300, 400, 600, 900, 1300]
+HEAVY = 120  # the writer is quadratic in the depth of a geometry tree: problems deeper than this report instead of writing
+BIG_EDITS = ["clone_cell", "append_clone", "geom_and", "geom_or", "imp", "vol", "cellnum", "remove_cell", "add_children", "surfnum", "title"]
+
+
+def big_cell_text(n, number=1):
+    """same text as tools/vlib/c17_impl.py:big_cell_text (kept here so that importing this file does not import MontePy)"""
+    words = [f"-{i}" for i in range(1, n + 1)]
+    lines = [f"{number} 0 " + " ".join(words[:10])]
+    for i in range(10, n, 10):
+        lines.append("      " + " ".join(words[i : i + 10]))
+    lines.append("      imp:n=1")
+    return "\n".join(lines)
+
+
+def lighten(ops):
+    """replace `write` by `report` on problems that hold a very deep cell (and on their deep copies)"""
+    heavy = set()
+    out = []
+    for op in ops:
+        if op[0] == "readbig":  # always succeeds (or fails for being too deep: the old problem stays)
+            if op[2]["n"] > HEAVY:
+                heavy.add(op[1])
+            elif op[2]["n"] <= HEAVY:
+                heavy.discard(op[1])
+        elif op[0] == "deepcopy" and op[1] in heavy:  # any other read may fail and leave the deep problem in place
+            heavy.add(op[2])
+        if op[0] == "write" and op[1] in heavy:
+            op = ["report", op[1]]
+        out.append(op)
+    return out
+
+
+def gen_big_interleaving(rng):
+    """two or three problems with one very large cell each (sizes from BIG_SIZES), then deep copies of problems and of
+    cells, reports, geometry edits, more reads"""
+    pids = [0, 1] + ([2] if rng.random() < 0.3 else [])
+    ops = [["readbig", p, {"n": rng.choice(BIG_SIZES)}] for p in pids]
+    rng.shuffle(ops)
+    for _ in range(rng.randint(2, 8)):
+        r = rng.random()
+        p = rng.choice(pids)
+        if r < 0.12:
+            ops.append(["readbig", rng.choice([0, 1]), {"n": rng.choice(BIG_SIZES)}])
+        elif r < 0.40:
+            dst = rng.choice([3, 4])
+            ops.append(["deepcopy", p, dst])
+            if dst not in pids:
+                pids.append(dst)
+        elif r < 0.75:
+            ops.append(["edit", p, rng.choice(BIG_EDITS), rng.randint(0, 2), rng.randint(0, 7), rng.randint(1, 9)])
+        elif r < 0.90:
+            ops.append(["report", p])
+        else:
+            ops.append(["write", p])
+    for p in pids:
+        ops.append(["report", p])
+    return {"kind": "interleave", "ops": lighten(ops)}
+
+
+def big_interleavings():
+    """standing cases: an unrelated problem with a much larger cell is read before / between the events of a problem
+    whose cell is deep-copied (as a problem, and alone)"""
+    for a, b in ((900, 250), (600, 200)):
+        yield {"kind": "interleave", "ops": [["readbig", 1, {"n": a}], ["readbig", 0, {"n": b}], ["deepcopy", 0, 2], ["report", 2]]}
+        yield {"kind": "interleave", "ops": [["readbig", 0, {"n": b}], ["readbig", 1, {"n": a}], ["edit", 0, "clone_cell", 0, 0, 1], ["report", 0]]}
+        yield {"kind": "interleave", "ops": [["readbig", 0, {"n": b}], ["deepcopy", 0, 2], ["readbig", 1, {"n": a}], ["deepcopy", 0, 3], ["report", 3], ["report", 1]]}
 # one card per data-input family / parser class (tools/vlib/c17_impl.py: RICH_DATA, RICH_BAD)
 RICH_KINDS = ["m", "mt", "tr", "mode", "kcode", "ksrc", "si", "sp", "sdef", "f", "fm", "fs", "nps", "vol"]
 RICH_FAILS = ["cell", "surface", "read", "m", "mt", "tr", "mode", "kcode", "nps", "sdef", "f", "fm", "fs"]
@@ -532,8 +635,10 @@ def gen_read_op(rng, pid):
         return ["readtext", pid, {"p.i": PERIODIC_TEXT}, "p.i"]
     if r < 0.60:
         return ["readtext", pid, READ_FIRST_TEXT, "top.i"]
-    if r < 0.85:
+    if r < 0.80:
         return ["readrich", pid, gen_rich_opts(rng)]
+    if r < 0.88:
+        return ["readbig", pid, {"n": rng.choice(BIG_SIZES)}]
     return ["read", pid, gen_files(rng, clean=rng.random() < 0.5), 0]
 
 
@@ -565,7 +670,7 @@ def gen_interleaving(rng):
             ops.append(["report", p])
     for p in pids[:2]:
         ops.append(["write", p])
-    return {"kind": "interleave", "ops": ops}
+    return {"kind": "interleave", "ops": lighten(ops)}
 
 
 def enumerated_interleavings(all_probes=True):
@@ -591,11 +696,14 @@ def project(ops, rel):
 
 def interleave_eval(case):
     """full history and, for every problem, the history with everything unrelated left out; all in pristine forks"""
+    import time
+
+    t0 = time.time()
     ops = case["ops"]
     full = run_isolated({"ops": ops, "state": True})
     if "failed" in full:
         return {"failed": full["failed"]}
-    out = {"full": full["obs"], "proj": {}}
+    out = {"full": full["obs"], "proj": {}, "wall": round(time.time() - t0, 2)}
     for focus in sorted({op_target(op) for op in ops if op_target(op) is not None}):
         rel = related(ops, focus)
         idx = [i for i, op in enumerate(ops) if op_target(op) in rel]
@@ -605,6 +713,7 @@ def interleave_eval(case):
         if "failed" in pr:
             return {"failed": pr["failed"]}
         out["proj"][str(focus)] = {"idx": idx, "obs": pr["obs"]}
+    out["wall_all"] = round(time.time() - t0, 2)
     return out
 
 
@@ -639,6 +748,9 @@ def classify(ops, full_obs, verdict):
     elif before.get("class_state"):
         cls = "class-attr-latch"
         site = before["class_state"][0] + " @ " + site
+    elif before.get("interp"):
+        cls = "interp-state-leak"  # a setting of the interpreter (recursion limit, warnings filters, cwd ...) was left changed
+        site = before["interp"][0].split("=")[0] + " @ " + site
     elif op[0] in READ_OPS and before.get("log") and (not before.get("queue") or verdict["with_others"].get("v") == "ParsingError"):
         cls = "log-leak"  # a dirty log makes parse() return None: ParsingError
     elif op[0] in READ_OPS and before.get("queue"):
@@ -784,6 +896,17 @@ for _text in [
     MAKE_CALLS.append(["make", "datainput", _text])  # DataInput(input) without the internal prefix argument
 
 
+# very large cells built by hand, and deep copies of free-standing cells (their outcome depends on the recursion limit in
+# force; sizes far from the thresholds: the stack depth of the harness differs by a few frames between the runners)
+MAKE_CALLS += [
+    ["make", "bigcell", big_cell_text(600)],
+    ["make", "bigcell", big_cell_text(1300)],
+    ["make", "bigcellcopy", big_cell_text(200)],
+    ["make", "bigcellcopy", big_cell_text(40)],
+]
+BIG_PREFIX_READS = [["readbig", 7, {"n": 600}], ["readbig", 7, {"n": 250}]]
+
+
 def pairs_shrink(prefix, call, fresh):
     def fails(pre):
         obs = sequence_outcomes(pre + [call])
@@ -898,6 +1021,9 @@ def report_pair(chk, prefix, call, fresh, got, obs):
     elif before.get("class_state"):
         cls = "class-attr-latch"
         site = before["class_state"][0] + " @ " + site
+    elif before.get("interp"):
+        cls = "interp-state-leak"
+        site = before["interp"][0].split("=")[0] + " @ " + site
     elif before.get("log") and (call[0].startswith("read") or not info):
         cls = "log-leak"  # a read, or the construction of the call's objects from text, met a dirty parser log
     elif call[0].startswith("read") and before.get("queue"):
@@ -970,12 +1096,19 @@ def run(chk):
         "model. interleave: histories on 2-4 real problems (fixtures of MontePy's test-suite, generated problems, failing "
         "reads, 28 kinds of API edits, deep copies, writes, reports), each compared with its projections on every "
         "problem's family. pair: a property-setter call (every generated property on every concrete class x 31 values) "
-        "or a read, alone versus after a shuffled prefix of other calls. A case is non-trivial if it has >= 2 operations "
+        "or a read, alone versus after a shuffled prefix of other calls. Cells with geometry trees of up to 40 levels "
+        "everywhere; problems with one very large cell (3 .. 1300 surfaces: around and far beyond the depths at which the "
+        "recursive walks stop fitting into the recursion limit) are read, deep-copied (as problems, as cells), edited and "
+        "reported in histories of their own and mixed into the others; the interpreter's own settings (recursion limit, "
+        "warnings filters, cwd, environ, sys.path, locale, decimal / numpy / random state, gc, signal handlers ...) are "
+        "snapshotted before a history and after every operation (U-world compares the recursion limit with the model; "
+        "a behavioural difference with a changed setting is classified interp-state-leak). A case is non-trivial if it has >= 2 operations "
         "on >= 2 different objects/problems; distinct = distinct canonical JSON."
     )
     chk.assumptions = [
         "copy.deepcopy reaches no class-level or module-level object (modelled as a value clone; judged on the real code by the interleavings)",
-        "the world model contains the shared state found by reading the source (read-card queue, parser log, setter closures); the translator pins the list of `global` statements and class-level instances, so new module/class state re-opens C17_world_covers_shared_state; state hidden elsewhere is detectable only by the differential runs",
+        "the world model contains the shared state found by reading the source (read-card queue, parser log, setter closures) and the interpreter's recursion limit; the translator pins the list of `global` statements, class-level instances, runtime writes to class/module state and every call that sets interpreter-wide state (sys.set*, sys.path, os.chdir/environ, warnings filters, locale, numpy/decimal/random, signal, atexit, gc), so a new one re-opens C17_world_covers_shared_state; state hidden elsewhere is detectable only by the differential runs",
+        "frames per tree level of copy.deepcopy (Interp.copyPer/copyBase) are measured constants; the theorems hold for every value, the correspondence uses depths far from the thresholds; recursive walks other than deepcopy (parse beyond ~1000 surfaces, str, format) are judged on the real code only",
         "read-card trees in the model are acyclic (a cycle hangs the code: property C20); fuel 64 >= files opened",
         "threads and generators of two reads advanced alternately are outside the property's quantifier (sequential histories)",
     ]
@@ -1015,14 +1148,17 @@ def run(chk):
     targeted = list(targeted_histories(extended=search_mode or chk.thorough))
     chk.extra["failing_input_search"] = {"obligation_broken": search_mode, "targeted_histories": len(targeted)}
     wcases += targeted
+    bigs = list(big_histories())
+    wcases += bigs
     wcases += exh
     wcases += [gen_world_case(rng) for _ in range(chk.pick(500, 12000))]
     wres = check_world(chk, drv, wcases)
     chk.units["U-world"] = {
         "corpus": nwc,
         "targeted_dirty_then_reuse": len(targeted),
+        "deep_cells_and_recursion_limit": len(bigs),
         "exhaustive_small": len(exh),
-        "random": len(wcases) - nwc - len(exh) - len(targeted),
+        "random": len(wcases) - nwc - len(exh) - len(targeted) - len(bigs),
     }
     chk.exhaustive = {"U-world": "all histories of length <= 2 over an 11-operation alphabet touching each piece of shared state, between a first read and five probes"}
     for case, r in zip(wcases, wres):
@@ -1034,8 +1170,12 @@ def run(chk):
                 st = o.get("state", {})
                 if st.get("log"):
                     chk.count("state:log-nonempty-after-op")
+                if st.get("limit", 1000) != 1000:
+                    chk.count("state:recursion-limit-changed-after-op")
                 if st.get("queue"):
                     chk.count("state:queue-nonempty-after-op")
+                for name in st.get("interp", ()):
+                    chk.count("state:interpreter-setting-changed:" + name.split("=")[0])
 
     phase("U-world")
     # ---- (a) interleavings -----------------------------------------------------------------------------------
@@ -1043,11 +1183,12 @@ def run(chk):
     icases = [c for c in corpus if c.get("kind") == "interleave"]
     nic = len(icases)
     # the modelled cases are histories on several problems too: judge them with the same oracle
-    icases += [dict(c, kind="interleave") for c in wcases[nwc : nwc + len(targeted) + chk.pick(120, 1500)]]
+    icases += [dict(c, kind="interleave") for c in wcases[nwc : nwc + len(targeted) + len(bigs) + chk.pick(120, 1500)]]
     nfrom_world = len(icases) - nic
-    enum_i = list(enumerated_interleavings(chk.thorough))
+    enum_i = list(enumerated_interleavings(chk.thorough)) + list(big_interleavings())
     icases += enum_i
     icases += [gen_interleaving(rng) for _ in range(chk.pick(150, 4000))]
+    icases += [gen_big_interleaving(rng) for _ in range(chk.pick(24, 600))]
     ievs = pmap(interleave_eval, icases, workers=WORKERS, chunksize=2)
     chk.units["interleavings"] = {
         "corpus": nic,
@@ -1066,6 +1207,8 @@ def run(chk):
         if v is not None:
             report_interleave(chk, case, v)
 
+    slow = sorted(((ev.get("wall_all", 0), ev.get("wall", 0), json.dumps(c["ops"])[:400]) for c, ev in zip(icases, ievs)), reverse=True)[:5]
+    chk.extra["slowest_interleavings"] = [{"wall_with_projections_s": a, "wall_full_history_s": b, "ops": o} for a, b, o in slow]
     phase("interleavings")
     # ---- (b) (prefix, call) ----------------------------------------------------------------------------------
     rng = chk.rng("pairs")
@@ -1091,7 +1234,7 @@ def run(chk):
                 fresh_of[canon(c["call"])] = f
     # exhaustive: every direct construction right after every read that ends in a card family / fails in a parser class
     # (the prefix runs once in a child; each call runs in its own fork of the state the prefix left behind)
-    prefix_reads = rich_reads()
+    prefix_reads = rich_reads() + BIG_PREFIX_READS
     fan_calls = [c for c in MAKE_CALLS if canon(c) in fresh_of]
     fans = pmap_any(lambda pre: run_isolated({"ops": [pre], "fanout": fan_calls, "state": True}), prefix_reads, WORKERS)
     nenum = 0
